@@ -59,6 +59,24 @@ var modelledPkgs = []string{
 	"github.com/spf13/viper",
 }
 
+// functions of modelled packages that are simple enough to interpret from source
+var interpretablePrefixes = []string{
+	"context.Background", "context.TODO", "(context.emptyCtx).", "(context.backgroundCtx).", "(context.todoCtx).",
+	"(time.Duration).", "(time.Month).", "(time.Weekday).",
+	"(*sync.Map).CompareAndSwap",
+	"(reflect.Kind).String",
+	"(net/http.Header).", "net/http.CanonicalHeaderKey", "net/http.StatusText",
+}
+
+func interpretable(name string) bool {
+	for _, p := range interpretablePrefixes {
+		if strings.HasPrefix(name, p) {
+			return true
+		}
+	}
+	return false
+}
+
 func pkgPathOf(fn *ssa.Function) string {
 	if fn.Pkg != nil {
 		return fn.Pkg.Pkg.Path()
@@ -164,7 +182,7 @@ func findExternal(i *interpreter, fn *ssa.Function) externalFn {
 			e = logStub(name)
 		case inList(pp, modelledPkgs):
 			// synthetic wrappers ($bound, $thunk) around modelled methods are interpreted
-			if fn.Synthetic == "" || fn.Blocks == nil {
+			if (fn.Synthetic == "" || fn.Blocks == nil) && !interpretable(name) {
 				msg := "call into modelled package without a model: " + name
 				e = func(fr *frame, args []value) value { panic(unsupported{msg}) }
 			}
